@@ -12,3 +12,7 @@ def encode_decode(var, value):
 def assoc_then_remove(node, net):
     node.associate_network(net)
     node.remove_network()
+
+
+def nop():
+    return None
